@@ -235,16 +235,12 @@ Proof.
   eexists. split; [right; right; left; reflexivity|]. vm_compute. split; reflexivity.
 Qed.
 
-Lemma start_at_end_instant_refuted :
+(* the former finding start-at-end-instant (fixed in /repo 51cd8e9): one DowntimeStart only, the oracle accepts *)
+Lemma start_at_end_instant_fixed :
   c5_wf_run wit_cfg 0 init_full wit_endinstant = true /\
-  total_cnt c5_is_start (c5_model_trace wit_cfg init_full wit_endinstant) = 3 /\
-  exists s, In s (c5_model_trace wit_cfg init_full wit_endinstant) /\
-            c5_chk_start s = false /\ c5_sig_endinstant s = true /\ c5_chk_depth s = true /\
-            length (filter (dt_in_effect (c5_now s)) (c5_post s)) = 0%nat.
-Proof.
-  split; [vm_compute; reflexivity|]. split; [vm_compute; reflexivity|].
-  eexists. split; [right; right; left; reflexivity|]. vm_compute. repeat split.
-Qed.
+  total_cnt c5_is_start (c5_model_trace wit_cfg init_full wit_endinstant) = 1 /\
+  c5_oracle KService (c5_model_trace wit_cfg init_full wit_endinstant) = [].
+Proof. split; [vm_compute; reflexivity|]. split; vm_compute; reflexivity. Qed.
 
 (* without the findings' signatures the whole oracle accepts these runs' clean counterparts (non-vacuity) *)
 Definition wit_clean : list (Z * op) :=
@@ -527,14 +523,6 @@ Proof.
   congruence.
 Qed.
 
-Lemma no_end_instant_of now ds :
-  existsb (fun d => d_fixed d && (now =? d_end d)) ds = false -> no_end_instant now ds.
-Proof.
-  intros H. unfold no_end_instant. apply Forall_forall. intros d Hd Hf Hn.
-  assert (existsb (fun d => d_fixed d && (now =? d_end d)) ds = true) as Ht.
-  { apply existsb_exists. exists d. split; [exact Hd|]. rewrite Hf. cbn. lia. }
-  congruence.
-Qed.
 
 Lemma Forall_filter {A} (P : A -> Prop) g l : Forall P l -> Forall P (filter g l).
 Proof. intros H. apply Forall_forall. intros x Hx. apply filter_In in Hx. rewrite Forall_forall in H. apply H. tauto. Qed.
@@ -547,8 +535,8 @@ Proof. intros H1 H2. unfold c5_chk_start. rewrite H1, H2. apply Z.eqb_refl. Qed.
 Lemma step_check_start_inv c now prev f o :
   DtInv2 now f -> c5_wf_step prev (c5_mk c now f o) = true ->
   let s := c5_mk c now f o in
-  (c5_sig_loststart (c_kind (fc_base c)) s = false -> c5_sig_endinstant s = false -> c5_chk_start s = true) /\
-  (c5_sig_endinstant s = false -> sane now (f_dts (fst (full_step c now f o)))).
+  (c5_sig_loststart (c_kind (fc_base c)) s = false -> c5_chk_start s = true) /\
+  sane now (f_dts (fst (full_step c now f o))).
 Proof.
   intros ([Hnd Hlsc] & Hs & He) Hwf s.
   pose proof Hwf as Hwf0.
@@ -557,9 +545,9 @@ Proof.
   assert (0 < now) as Hnow by lia.
   destruct o; cbn [c5_in_scope] in Hsc; try discriminate.
   - (* result *)
-    unfold s, c5_sig_loststart, c5_sig_endinstant. cbn [c5_mk c5_op c5_pre c5_now full_step].
+    unfold s, c5_sig_loststart. cbn [c5_mk c5_op c5_pre c5_now full_step].
     destruct (rejected now (f_st f) r) eqn:Hrej.
-    + unfold do_result. rewrite Hrej. cbn [fst]. split; [|intros _; exact Hs]. intros _ _.
+    + unfold do_result. rewrite Hrej. cbn [fst]. split; [|exact Hs]. intros _.
       apply start_check_of_count with 0.
       * cbn [c5_mk c5_outs c5_paused full_step]. unfold do_result. rewrite Hrej. cbn [snd].
         change (c5_cnt c5_is_start [ORefused 5]) with 0. destruct (f_paused f); reflexivity.
@@ -569,8 +557,8 @@ Proof.
       assert (0 < r_end r <= now) as Ht by lia.
       destruct (negb (is_ok (c_kind (fc_base c)) (r_state r))) eqn:Hnok.
       * pose proof (trigger_all_Rl now (f_paused f) (r_end r) (f_dts f) Hnd) as HR.
-        split; [|intros _; rewrite Hd; apply (Rl_sane now _ _ _ Ht Hs HR)].
-        intros Hsig _. apply orb_false_iff in Hsig. destruct Hsig as [Hcf Hex]. cbn [andb] in Hex.
+        split; [|rewrite Hd; apply (Rl_sane now _ _ _ Ht Hs HR)].
+        intros Hsig. apply orb_false_iff in Hsig. destruct Hsig as [Hcf Hex]. cbn [andb] in Hex.
         apply start_check_of_count with (U (f_dts f) - U (f_dts (fst (do_result c now r f)))).
         -- cbn [c5_mk c5_outs c5_paused full_step]. rewrite Ho, !cnt_app.
            destruct (plain_quiet _ Ha) as (_ & -> & _). destruct (plain_quiet _ Hb) as (_ & -> & _).
@@ -578,7 +566,7 @@ Proof.
            rewrite Hd. destruct (f_paused f); lia.
         -- cbn [c5_mk c5_pre c5_post full_step]. apply newly_count; [exact Hnd|].
            rewrite Hd. eapply Rwl_Cmp, Rl_Rwl. exact HR.
-      * split; [|intros _; rewrite Hd; exact Hs]. intros _ _.
+      * split; [|rewrite Hd; exact Hs]. intros _.
         apply start_check_of_count with 0.
         -- cbn [c5_mk c5_outs c5_paused full_step]. rewrite Ho, !cnt_app.
            destruct (plain_quiet _ Ha) as (_ & -> & _). destruct (plain_quiet _ Hb) as (_ & -> & _).
@@ -589,11 +577,11 @@ Proof.
     pose proof (get_ack_facts now f) as (A1 & _ & _ & A4).
     unfold s. cbn [c5_mk full_step]. 
     split.
-    + intros _ _. apply start_check_of_count with 0; cbn [c5_mk c5_outs c5_paused c5_pre c5_post full_step];
+    + intros _. apply start_check_of_count with 0; cbn [c5_mk c5_outs c5_paused c5_pre c5_post full_step];
         destruct (get_ack now f) as [[a f'] o']; cbn [fst snd] in *.
       * destruct (plain_quiet _ A4) as (_ & -> & _). destruct (f_paused f); reflexivity.
       * rewrite A1. rewrite newly_incl; [reflexivity|exact Hnd|apply incl_refl].
-    + intros _. destruct (get_ack now f) as [[a f'] o']; cbn [fst snd] in *. rewrite A1. exact Hs.
+    + destruct (get_ack now f) as [[a f'] o']; cbn [fst snd] in *. rewrite A1. exact Hs.
   - (* add *)
     cbn [c5_op c5_mk c5_pre] in Hop. apply andb_prop in Hop. destruct Hop as [Hfr _].
     apply negb_true_iff in Hfr. apply has_false_notin in Hfr.
@@ -601,8 +589,8 @@ Proof.
     cbn zeta in Hc, Hsn.
     assert (sane now (f_dts f ++ [new_dt now id fixed start end_ duration parent owned])) as Hs0.
     { unfold sane. apply Forall_app. split; [exact Hs|]. constructor; [left; reflexivity|constructor]. }
-    split; [|intros _; apply Hsn; exact Hs0].
-    intros _ _.
+    split; [|apply Hsn; exact Hs0].
+    intros _.
     apply start_check_of_count with (U (f_dts f ++ [new_dt now id fixed start end_ duration parent owned])
                                      - U (f_dts (fst (do_dt_add c now id fixed start end_ duration trig_by parent owned f)))).
     + exact Hc.
@@ -619,22 +607,21 @@ Proof.
     assert (c5_post s = ds /\ c5_outs s = o ++ [if ok then ODone else ORefused 4]) as (Ep & Eo).
     { unfold s. cbn [c5_mk c5_post c5_outs full_step]. unfold do_dt_remove. rewrite Erm. split; reflexivity. }
     change (f_dts (fst (full_step c now f (OpDtRemove id children r)))) with (c5_post s).
-    split; [|intros _; rewrite Ep, A1; apply Forall_filter; exact Hs].
-    intros _ _. apply start_check_of_count with 0.
+    split; [|rewrite Ep, A1; apply Forall_filter; exact Hs].
+    intros _. apply start_check_of_count with 0.
     + rewrite Eo, cnt_app, A5. destruct ok; cnt_eval; destruct (c5_paused s); reflexivity.
     + rewrite Ep. change (c5_pre s) with (f_dts f). rewrite A1, newly_incl; [reflexivity|exact Hnd|].
       intros x Hx. apply filter_In in Hx. tauto.
   - (* start timer *)
-    unfold s, c5_sig_loststart, c5_sig_endinstant. cbn [c5_mk c5_op c5_pre c5_now full_step].
+    unfold s, c5_sig_loststart. cbn [c5_mk c5_op c5_pre c5_now full_step].
     split.
-    + intros Hsig Hei. rewrite orb_false_r in Hsig.
-      destruct (start_count_timer now f Hnd Hs He (chained_fixed_false _ Hsig) (no_end_instant_of _ _ Hei)) as (Hc & _).
+    + intros Hsig. rewrite orb_false_r in Hsig.
+      destruct (start_count_timer now f Hnd Hs He (chained_fixed_false _ Hsig)) as (Hc & _).
       apply start_check_of_count with (U (f_dts f) - U (f_dts (fst (do_dt_start_timer now f)))).
       * exact Hc.
       * cbn [c5_mk c5_pre c5_post full_step]. apply newly_count; [exact Hnd|].
         eapply Rwl_Cmp. apply do_dt_start_timer_Rwl. exact Hnd.
-    + intros Hei.
-      (* sanity does not depend on the chain hypothesis: every trigger time set is max(start, entry) of a downtime in its window *)
+    + (* sanity does not depend on the chain hypothesis: every trigger time set is max(start, entry) of a downtime in its window *)
       clear s. unfold do_dt_start_timer.
       match goal with |- context [fold_left ?g ?l ?a] =>
         assert (let r := fold_left g l a in Rwl now (f_dts f) (fst r) /\ sane now (fst r)) as H end.
@@ -666,25 +653,25 @@ Proof.
         assert (c5_post s = ds /\ c5_outs s = o ++ [if ok then ODone else ORefused 4]) as (Ep & Eo).
         { unfold s. cbn [c5_mk c5_post c5_outs full_step]. unfold do_dt_cleanup. rewrite Hf, Hex.
           unfold do_dt_remove. rewrite Erm. split; reflexivity. }
-        split; [|intros _; rewrite Ep, A1; apply Forall_filter; exact Hs].
-        intros _ _. apply start_check_of_count with 0.
+        split; [|rewrite Ep, A1; apply Forall_filter; exact Hs].
+        intros _. apply start_check_of_count with 0.
         -- rewrite Eo, cnt_app, A5. destruct ok; cnt_eval; destruct (c5_paused s); reflexivity.
         -- rewrite Ep. change (c5_pre s) with (f_dts f). rewrite A1, newly_incl; [reflexivity|exact Hnd|].
            intros x Hx. apply filter_In in Hx. tauto.
       * assert (c5_post s = f_dts f /\ c5_outs s = []) as (Ep & Eo).
         { unfold s. cbn [c5_mk c5_post c5_outs full_step]. unfold do_dt_cleanup. rewrite Hf, Hex. split; reflexivity. }
-        split; [|intros _; rewrite Ep; exact Hs]. intros _ _.
+        split; [|rewrite Ep; exact Hs]. intros _.
         apply start_check_of_count with 0.
         -- rewrite Eo. cnt_eval. destruct (c5_paused s); reflexivity.
         -- rewrite Ep. change (c5_pre s) with (f_dts f). rewrite newly_incl; [reflexivity|exact Hnd|apply incl_refl].
     + assert (c5_post s = f_dts f /\ c5_outs s = []) as (Ep & Eo).
       { unfold s. cbn [c5_mk c5_post c5_outs full_step]. unfold do_dt_cleanup. rewrite Hf. split; reflexivity. }
-      split; [|intros _; rewrite Ep; exact Hs]. intros _ _.
+      split; [|rewrite Ep; exact Hs]. intros _.
       apply start_check_of_count with 0.
       * rewrite Eo. cnt_eval. destruct (c5_paused s); reflexivity.
       * rewrite Ep. change (c5_pre s) with (f_dts f). rewrite newly_incl; [reflexivity|exact Hnd|apply incl_refl].
   - (* pause *)
-    split; [|intros _; exact Hs]. intros _ _.
+    split; [|exact Hs]. intros _.
     apply start_check_of_count with 0.
     + change (c5_outs s) with (@nil out). cnt_eval. destruct (c5_paused s); reflexivity.
     + change (c5_post s) with (f_dts f). change (c5_pre s) with (f_dts f).
@@ -778,13 +765,13 @@ Proof.
 Qed.
 
 Lemma step_DtInv2 c now prev f o :
-  DtInv2 now f -> c5_wf_step prev (c5_mk c now f o) = true -> c5_sig_endinstant (c5_mk c now f o) = false ->
+  DtInv2 now f -> c5_wf_step prev (c5_mk c now f o) = true ->
   DtInv2 now (fst (full_step c now f o)).
 Proof.
-  intros Hinv Hwf Hei. pose proof Hinv as (Hi & Hs & He).
+  intros Hinv Hwf. pose proof Hinv as (Hi & Hs & He).
   destruct (step_Mono c now prev f o Hi Hwf) as (HM & Hi' & _).
   destruct (step_check_start_inv c now prev f o Hinv Hwf) as (_ & Hsane). cbn zeta in Hsane.
-  split; [exact Hi'|]. split; [apply Hsane; exact Hei|].
+  split; [exact Hi'|]. split; [exact Hsane|].
   unfold entries_sane in *. apply Forall_forall. intros d' Hd'.
   destruct (HM d' Hd') as (d & Hd & _ & Hst & _). rewrite (same_static_entry _ _ Hst).
   apply in_app_or in Hd. destruct Hd as [Hd|Hd].
@@ -815,7 +802,7 @@ Proof.
   cbn [c5_wf_run] in Hwf. apply andb_prop in Hwf. destruct Hwf as [Hw Hrest].
   cbn [c5_clean_run] in Hcl. apply andb_prop in Hcl. destruct Hcl as [Hsig Hclr].
   apply negb_true_iff in Hsig. unfold c5_sig_any in Hsig.
-  apply orb_false_iff in Hsig. destruct Hsig as [S2 S3].
+  pose proof Hsig as S2.
   pose proof (wf_prev_le _ _ _ _ _ Hw) as Hle.
   pose proof (DtInv2_later _ _ _ Hle Hinv) as Hinv'. pose proof Hinv' as (Hi & _ & _).
   constructor.
@@ -824,8 +811,8 @@ Proof.
     destruct (step_checks_removal c now prev f o Hi Hw) as (H3 & H4 & H5 & H6). cbn zeta in H3, H4, H5, H6.
     destruct (step_check_start_inv c now prev f o Hinv' Hw) as (H9 & _). cbn zeta in H9.
     rewrite H1, H2, H3, H4, H5, H6, (step_check_result c now prev f o Hi Hw),
-      (step_check_add c now prev f o Hi Hw), (H9 S2 S3), (step_check_trigev c now prev f o Hi Hw), step_check_depth. reflexivity.
-  - apply IH with now; [|exact Hrest|exact Hclr]. apply (step_DtInv2 c now prev f o Hinv' Hw S3).
+      (step_check_add c now prev f o Hi Hw), (H9 S2), (step_check_trigev c now prev f o Hi Hw), step_check_depth. reflexivity.
+  - apply IH with now; [|exact Hrest|exact Hclr]. apply (step_DtInv2 c now prev f o Hinv' Hw).
 Qed.
 
 Lemma clean_run_premises :
@@ -835,7 +822,7 @@ Proof. split; [apply DtInv2_init; lia|]. split; vm_compute; reflexivity. Qed.
 Lemma start_end_once_step c now prev f o :
   DtInv2 now f -> c5_wf_step prev (c5_mk c now f o) = true ->
   let s := c5_mk c now f o in
-  (c5_sig_loststart (c_kind (fc_base c)) s = false -> c5_sig_endinstant s = false -> c5_chk_start s = true) /\
+  (c5_sig_loststart (c_kind (fc_base c)) s = false -> c5_chk_start s = true) /\
   c5_chk_removed s = true /\ c5_chk_end s = true.
 Proof.
   intros Hinv Hwf s. pose proof Hinv as (Hi & _).
